@@ -11,11 +11,9 @@ if "@" in key:
     key, variant = key.split("@")
 c = spec.REGISTRY[(key, variant)]
 t0 = time.time()
-r = verify.verify_function(c)
+r = verify.verify_portfolio(c)
 print("error:", r.error, "paths:", r.paths, "gen time %.2f" % (time.time() - t0))
 if r.ctx:
-    for o in r.ctx.obls:
-        o.axioms = list(r.ctx.axioms)
     smt.discharge(r.ctx.obls, timeout=int(__import__('os').environ.get('TO','8000')), use_cvc5=False)
     for o in r.ctx.obls:
         print(f"{o.verdict:12s} {o.time:6.2f}s {o.backend or '':6s} {o.id}   {o.detail[:300] if o.verdict not in ('discharged','covered') else ''}")
